@@ -126,11 +126,16 @@ func c03Aggrs() []c03Aggr {
 	}
 }
 
-var c03Groups = []struct{ field, by string }{
-	{"", ""},
-	{"substr(key, 3, 4) as p", "p"},
-	{"value", "value"},
-	{"strlen(value) as l, is_int(value) as b", "l, b"},
+// wand: a conjunct added to the filter that names the GROUP BY fields, so the
+// filter has computed (and cached) them for the pairs it saw before the
+// aggregation groups the pairs it let through.
+var c03Groups = []struct{ field, by, wand string }{
+	{"", "", ""},
+	{"substr(key, 3, 4) as p", "p", ""},
+	{"value", "value", ""},
+	{"strlen(value) as l, is_int(value) as b", "l, b", ""},
+	{"lower(value) as p", "p", "p != 'zz'"},
+	{"substr(key, 3, 4) as p, strlen(value) as l", "l, p", "l < 9 & p != 'zz'"},
 }
 
 // stores ---------------------------------------------------------------------
@@ -305,13 +310,20 @@ func (c03) RunUnit(t core.Tier, u int, r *core.Reporter) {
 					o    string
 					cols []int
 				}{{"", nil}, {" order by x desc", []int{xcol}}}
+				where := w.w
+				if g.wand != "" {
+					where = "(" + w.w + ") & " + g.wand
+				}
 				for _, b := range append(append([]int(nil), bs...), 32) {
 					for _, o := range orders {
 						for li, lim := range c03Limits(b) {
 							if b == 32 && li > 1 {
 								continue
 							}
-							run("select "+sel+" where "+w.w+grp+o.o+lim, kind, o.cols, b)
+							if g.wand != "" && li > 2 {
+								continue
+							}
+							run("select "+sel+" where "+where+grp+o.o+lim, kind, o.cols, b)
 						}
 					}
 				}
